@@ -157,7 +157,8 @@ def analysis(case, work, models_in=None, proteins=None):
     else:
         model = make_model("linear", first_only=True, train_fdr=0.2, max_iter=2, rng=seed)
     psms, models, scores, descs = mokapot.brew([ds], model=model, test_fdr=0.2, folds=case["folds"], max_workers=case["workers"], rng=seed,
-                                               **({"subset_max_train": case["cap"]} if case.get("cap") else {}))
+                                               **({"subset_max_train": case["cap"]} if case.get("cap") else {}),
+                                               **({"ensemble": True} if case.get("ensemble") else {}))
     dig = {"scores": hashlib.sha1(np.ascontiguousarray(np.asarray(scores[0], dtype=float)).tobytes()).hexdigest(),
            "descs": [bool(d) for d in descs], "trained": [bool(m.is_trained) for m in models]}
     if case["est"] == "perc":
@@ -331,6 +332,9 @@ def run(ctx):
     # training on a random subset of every training split (the draw must come from the seeded generator)
     for s, f, e in (((2, 3, "rec"),) if ctx.quick else ((1, 3, "rec"), (2, 2, "rec"), (42, 4, "perc"))):
         cases.append(dict(seed=s, folds=f, workers=1, est=e, fasta="none", cap=60, _hashseeds=list(hs)))
+    # every PSM scored by the average of all fold models
+    for s, f, e in (((1, 3, "rec"),) if ctx.quick else ((1, 3, "rec"), (2, 2, "perc"))):
+        cases.append(dict(seed=s, folds=f, workers=1, est=e, fasta="none", ensemble=True, _hashseeds=list(hs)))
     # spectrum key led by a string column (file name)
     for s, f, e in (((1, 3, "perc"),) if ctx.quick else ((1, 3, "perc"), (2, 4, "perc"), (42, 4, "rec"))):
         cases.append(dict(seed=s, folds=f, workers=1, est=e, fasta="none", key="file", _hashseeds=list(hs)))
